@@ -31,7 +31,7 @@
 From Coq Require Import ZArith List Bool.
 Import ListNotations.
 From Mds Require Import Gen.CacheIdx Heapq.HeapqModel Heapq.HeapqSpec Cache.CacheSpec Cache.CacheModel Cache.CacheWitness
-  Cache.CacheLruProofs Cache.CacheTheorems Cache.CacheTheoremsS2 Cache.CacheInt.
+  Cache.CacheLruProofs Cache.CacheTheorems Cache.CacheTheoremsS2.
 Local Open Scope Z_scope.
 
 (* For every heap variant, key type with decidable equality, size function >= 0, limit > 0 and
@@ -241,30 +241,3 @@ Proof. vm_compute. reflexivity. Qed.
 Theorem C08_store_shape : store_shape = true.
 Proof. exact store_shape_ok. Qed.
 Print Assumptions C08_store_shape.
-
-(* Machine integers.  From a state with 0 <= size <= limit (C08_consistent) and an accepted value
-   size 0 <= valSize <= limit, Put's newSize := c.size + valSize lies in [0, 2*limit] and, when
-   2*limit < 2^63, is the same number in int64 arithmetic; every later value of newSize and size is
-   obtained by subtracting the size of a present entry and stays in [0, 2*limit] (CacheInt.v:
-   newsize_evict_range, size_sub_range). *)
-Theorem C08_int64_range :
-  forall lim, 2 * lim < 2 ^ 63 -> forall size vs, 0 <= size <= lim -> 0 <= vs <= lim ->
-    0 <= put_newsize_init size vs <= 2 * lim /\ wrap64 (put_newsize_init size vs) = put_newsize_init size vs.
-Proof. exact newsize_init_range. Qed.
-Print Assumptions C08_int64_range.
-
-Example C08_int64_range_ex : wrap64 (put_newsize_init (2 ^ 62 - 1) (2 ^ 62 - 1)) = 2 ^ 63 - 2.
-Proof. vm_compute. reflexivity. Qed.
-
-(* ... and beyond that range the Go code's int64 sum wraps: limit = 2^63-1 holding one entry of size
-   2^63-1, Put of another value of size 2^63-1: the property (and the Z model) evict, the int64
-   sum is -2, the loop condition is false, Size() becomes -2. *)
-Theorem C08_newsize_wraps :
-  let lim := 2 ^ 63 - 1 in
-  put_refuse lim lim = false /\
-  put_evict_continue (put_newsize_init lim lim) lim = true /\
-  wrap64 (put_newsize_init lim lim) = -2 /\
-  put_evict_continue (wrap64 (put_newsize_init lim lim)) lim = false /\
-  put_final_size (wrap64 (put_newsize_init lim lim)) = -2.
-Proof. exact newsize_wraps. Qed.
-Print Assumptions C08_newsize_wraps.
